@@ -33,6 +33,8 @@ pub struct Scenario {
     pub bare_eof: bool,
     /// every k-th read hands over an empty block before the data (a source chaining inner sources)
     pub empty_fill_every: usize,
+    /// which SourceError flavour an injected read failure carries (gen::source_error)
+    pub err_flavour: usize,
 }
 
 impl Scenario {
@@ -43,7 +45,7 @@ impl Scenario {
             "pcm_hash": format!("{:016x}", prng::hash_i32s(&self.audio.samples)),
             "block": self.block, "frames": (self.audio.frames() + self.block - 1) / self.block,
             "workers": self.workers, "env_FLACENC_WORKERS": self.env, "policy": format!("{:?}", self.policy),
-            "faults": format!("{:?}", self.faults), "fill": format!("{:?}", self.mode), "config": gen::describe_config(&self.cfg), "short_read_every": self.short_reads, "bare_eof": self.bare_eof, "empty_fill_every": self.empty_fill_every,
+            "faults": format!("{:?}", self.faults), "fill": format!("{:?}", self.mode), "config": gen::describe_config(&self.cfg), "short_read_every": self.short_reads, "bare_eof": self.bare_eof, "empty_fill_every": self.empty_fill_every, "read_error_flavour": self.err_flavour % gen::ERR_FLAVOURS,
         })
     }
 }
@@ -107,6 +109,7 @@ fn gen_c05_long(seed: u64, idx: u64) -> Scenario {
         short_reads: 0,
         bare_eof: false,
         empty_fill_every: 0,
+        err_flavour: 0,
     }
 }
 
@@ -135,6 +138,7 @@ fn gen_c05_big(seed: u64, idx: u64) -> Scenario {
         short_reads: 0,
         bare_eof: false,
         empty_fill_every: 0,
+        err_flavour: 0,
     }
 }
 
@@ -187,6 +191,7 @@ pub fn gen_c05(seed: u64, sub: &str, idx: u64) -> Scenario {
         bare_eof: idx % 4 == 1,
         // one scheduled scenario in eight reads from a chain of inner sources
         empty_fill_every: if sub == "sched" && idx % 8 == 6 { 2 + (idx as usize / 8) % 3 } else { 0 },
+        err_flavour: 0,
     }
 }
 
@@ -301,6 +306,9 @@ pub fn gen_c06(seed: u64, tier: Tier, sub: &str, idx: u64) -> Scenario {
         bare_eof: idx % 4 == 2,
         // fault-free and env scenarios: one in five reads from a chain of inner sources
         empty_fill_every: if (sub == "faultfree" || sub == "env") && idx % 5 == 3 { 2 + (idx as usize / 5) % 3 } else { 0 },
+        // the grid of the enumeration has 3 (policy) x 3 (W) x ... entries per fault position;
+        // idx / 3 walks through the flavours independently of the policy index
+        err_flavour: (idx / 3 + idx / 11) as usize,
     }
 }
 
@@ -321,6 +329,7 @@ fn run_encode(cfg: &config::Encoder, sc: &Scenario, multithread: bool) -> Result
     src.short_reads = sc.short_reads;
     src.bare_eof = sc.bare_eof;
     src.empty_fill_every = sc.empty_fill_every;
+    src.err_flavour = sc.err_flavour;
     let stream = enc::encode_stream(&v, src, sc.block)?;
     enc::to_bytes(&stream).map_err(|e| EncErr::Api("Serialise", format!("{e:?}").chars().take(200).collect()))
 }
